@@ -115,7 +115,11 @@ Inductive event :=
 | Start (a : nat) (t : Q)             (* `start = _now()` after the wait *)
 | Done (a : nat) (t : Q) (n : Z)      (* the I/O returned n bytes; append(n, recorded start) *)
 | SetLimit (k : nat) (v : option Q)   (* throttle.limit = v *)
-| CloneAll.                           (* every object replaced by its clone() (all actors idle) *)
+| CloneAll                            (* every object replaced by its clone() (all actors idle) *)
+| Abort (a : nat) (t : Q).            (* the operation of actor a ended at t WITHOUT append(): the timed
+                                         super().read()/write() raised (asyncio.TimeoutError of
+                                         with_timeout, a connection error), or the task was cancelled
+                                         during the throttle wait or the I/O *)
 
 Record sys := mkS { s_store : list throttle; s_stat : list status; s_clock : Q }.
 
@@ -156,6 +160,14 @@ Definition step (actors : list actor) (st : sys) (e : event) : option sys :=
       if forallb is_idle (s_stat st)
       then Some (mkS (map clone (s_store st)) (s_stat st) (s_clock st))
       else None
+  | Abort a t =>
+      match nth_error (s_stat st) a with
+      | Some Idle | None => None
+      | Some _ =>
+          if Qle_bool (s_clock st) t
+          then Some (mkS (s_store st) (upd (s_stat st) a Idle) t)
+          else None
+      end
   end.
 
 Fixpoint run (actors : list actor) (st : sys) (tr : list event) : option sys :=
@@ -166,6 +178,31 @@ Fixpoint run (actors : list actor) (st : sys) (tr : list event) : option sys :=
 
 Definition init_sys (store : list throttle) (actors : list actor) (t : Q) : sys :=
   mkS store (map (fun _ => Idle) actors) t.
+
+(* ---------------------------------------------------------------- one operation under a timeout
+
+   StreamIO.read/readline/write are `asyncio.wait_for(<the socket I/O>, self.<x>_timeout)`
+   (with_timeout); ThrottleStreamIO.read/readline/write do
+       await self.wait(name); start = _now(); await super().<op>(...); self.append(name, data, start)
+   so the throttle wait is OUTSIDE the timed region: whatever the timeout, the I/O starts at the
+   wake time; only the socket I/O itself (duration d) runs against the timeout. *)
+
+(* outcome of the timed region entered at ts: (completed?, instant it ends).  wait_for(aw, T):
+   T = None never fires; the awaitable wins only if it finishes strictly before the deadline
+   (the harness never generates d = T); T <= 0 cancels at once. *)
+Definition timed_end (tmo : option Q) (ts d : Q) : bool * Q :=
+  match tmo with
+  | None => (true, (ts + d)%Q)
+  | Some T => if Qlt_bool d T then (true, (ts + d)%Q) else (false, (ts + Qmax 0 T)%Q)
+  end.
+
+(* the events of one read()/readline()/write() of actor a called at `now`, whose socket I/O takes d
+   and moves n bytes, on a stream whose effective timeout for that direction is tmo *)
+Definition op_events (store : list throttle) (ac : actor) (a : nat) (tmo : option Q)
+                     (now d : Q) (n : Z) : list event :=
+  let w := stream_wake store (ids_of ac) now in
+  let r := timed_end tmo w d in
+  [Eval a now; Start a w; if fst r then Done a (snd r) n else Abort a (snd r)].
 
 (* ---------------------------------------------------------------- harness interface *)
 
@@ -200,6 +237,7 @@ Definition event_of_sx (s : sx) : event :=
   else if (tag =? 1)%Z then Start a (q_of_sx (nth_sx 2 s))
   else if (tag =? 2)%Z then Done a (q_of_sx (nth_sx 2 s)) (z_of_sx (nth_sx 3 s))
   else if (tag =? 3)%Z then SetLimit a (oq_of_sx (nth_sx 2 s))
+  else if (tag =? 5)%Z then Abort a (q_of_sx (nth_sx 2 s))
   else CloneAll.
 
 Definition sx_of_status (s : status) : sx :=
@@ -227,7 +265,8 @@ Fixpoint run_log (actors : list actor) (st : sys) (tr : list event) : list sx :=
    fn 2: wake    [throttle; now]
    fn 3: append  [throttle; n; t]
    fn 4: clone   [throttle]
-   fn 5: set_limit [throttle; limit option] *)
+   fn 5: set_limit [throttle; limit option]
+   fn 6: timed_end [timeout option; ts; d] -> [completed; end] *)
 Definition run_throttle (fn : Z) (a : sx) : sx :=
   if (fn =? 0)%Z then I (round_half_even (q_of_sx a))
   else if (fn =? 1)%Z then
@@ -242,4 +281,7 @@ Definition run_throttle (fn : Z) (a : sx) : sx :=
   else if (fn =? 4)%Z then sx_of_throttle (clone (throttle_of_sx (nth_sx 0 a)))
   else if (fn =? 5)%Z then
     sx_of_throttle (set_limit (oq_of_sx (nth_sx 1 a)) (throttle_of_sx (nth_sx 0 a)))
+  else if (fn =? 6)%Z then
+    let r := timed_end (oq_of_sx (nth_sx 0 a)) (q_of_sx (nth_sx 1 a)) (q_of_sx (nth_sx 2 a)) in
+    L [sx_of_bool (fst r); sx_of_q (snd r)]
   else sx_err 99.
